@@ -119,3 +119,54 @@ func igam_alt1(a, x float64) float64 {
 	}
 	return ans * ax / a
 }
+
+// igamc_alt1: the same continued fraction with the do-while written as a head-tested loop on the convergence measure
+// itself: t starts at 1 (> macheP), so the body runs at least once, and the test after every pass is the same
+// t > macheP on the t that pass computed.
+func igamc_alt1(a, x float64) float64 {
+	if x <= 0 || a <= 0 {
+		return 1
+	}
+	if x < 1 || x < a {
+		return 1 - igam(a, x)
+	}
+	ax := a*math.Log(x) - x - lgam(a)
+	if ax < -maxLog {
+		return 0
+	}
+	ax = math.Exp(ax)
+	y := 1 - a
+	z := x + y + 1
+	c := 0.0
+	pkm2 := 1.0
+	qkm2 := x
+	pkm1 := x + 1
+	qkm1 := z * x
+	ans := pkm1 / qkm1
+	for t := 1.0; t > macheP; {
+		c += 1
+		y += 1
+		z += 2
+		yc := y * c
+		pk := pkm1*z - pkm2*yc
+		qk := qkm1*z - qkm2*yc
+		if qk != 0 {
+			r := pk / qk
+			t = math.Abs((ans - r) / r)
+			ans = r
+		} else {
+			t = 1
+		}
+		pkm2 = pkm1
+		pkm1 = pk
+		qkm2 = qkm1
+		qkm1 = qk
+		if math.Abs(pk) > bigV {
+			pkm2 *= bigInv
+			pkm1 *= bigInv
+			qkm2 *= bigInv
+			qkm1 *= bigInv
+		}
+	}
+	return ans * ax
+}
